@@ -47,7 +47,7 @@ func BenchRoots() []refchess.Pos { suiteOnce.Do(loadSuite); return bench }
 func Root(t *rapid.T) (refchess.Pos, string) {
 	suiteOnce.Do(loadSuite)
 	for attempt := 0; attempt < 4; attempt++ {
-		switch draw(t, 0, 12, "family") {
+		switch draw(t, 0, 13, "family") {
 		case 0:
 			return refchess.MustFEN(StartFEN), "startpos"
 		case 1:
@@ -85,6 +85,8 @@ func Root(t *rapid.T) (refchess.Pos, string) {
 			if p, ok := BatteryMotif(t); ok {
 				return p, "battery"
 			}
+		case 13:
+			return Extreme(t), "extreme_material"
 		case 12:
 			if p, ok := BlockMotif(t); ok {
 				return maybeMirror(t, p), "block"
